@@ -17,6 +17,7 @@ import DfolsVerif.Proofs.EvalLoop
 import DfolsVerif.Gen.EvalLoopFns
 import DfolsVerif.Proofs.EvalLoopAcc
 import DfolsVerif.Proofs.RestartGuards
+import DfolsVerif.Proofs.SolveMainCalls
 
 namespace Dfols
 namespace C02
@@ -201,6 +202,19 @@ theorem C02_x0_refines_acceptor (maxfun nf nx want x nruns npt : Nat) (v : Val) 
 /-- non-vacuity / worked example: 3 samples asked with one evaluation left -/
 example : (EvalLoop.forRange 3 (Gen.evalObjBody 10) (Gen.evalObjInit 9 4)) =
     { nf := 10, nx := 5, incremented := true, runs := 1, exit := some 1, calls := [(10, 5)] } := by decide
+
+/-! ### layer G: the counters travel from run to run (table of every `solve_main` call / return, regenerated on every run) -/
+
+/-- **`nf`, `nx`, `nruns` are threaded through every run**: `solve` passes `nruns, nf, nx` at positions 10–12 of each of its three
+    `solve_main` calls and rebinds `nf, nx, nruns, exit_info` from EVERY result — also from a restarted run that did not improve —,
+    and each `return` of `solve_main` hands back the controller's counters at those positions (seeded change C02_10 rebound them
+    only after a successful restart) -/
+theorem C02_src_counters_threaded :
+    (Gen.solveMainTargets.length = 3 ∧ ∀ t ∈ Gen.solveMainTargets, t.length = 12 ∧ (t.drop 5).take 4 = ["nf", "nx", "nruns", "exit_info"]) ∧
+    (Gen.solveMainReturns.length = 3 ∧ ∀ r ∈ Gen.solveMainReturns, r.length = 12 ∧
+      ((r.drop 5).take 2 = ["nf", "nx"] ∨ (r.drop 5).take 2 = ["control.nf", "control.nx"]) ∧ (r.drop 8).take 1 = ["exit_info"]) ∧
+    (∀ c ∈ Gen.solveMainCalls, (c.1.drop 10).take 3 = ["nruns", "nf", "nx"]) :=
+  SolveMainCalls.counters_threaded
 
 end C02
 end Dfols
